@@ -21,8 +21,8 @@ RULE = (
     "bodies, an injected exception at a seeded statement boundary caught at a seeded outer level, and "
     "constructor calls that PennyLane itself rejects half-way. After every statement the recording flag "
     "and the identity of the active context are compared with a stack-of-lists model; every closed context "
-    "is compared with its model list by object identity; a probe program recorded afterwards (also from a "
-    "second thread, to detect a leaked lock) must contain exactly its own operations. distinct = distinct "
+    "is compared with its model list by object identity; a probe program recorded afterwards must contain "
+    "exactly its own operations and neither queuing lock may still be held. distinct = distinct "
     "trace digest; non-trivial = an exception crossed at least one context boundary, or a wrapper "
     "consumed an operand, or something was created under stop_recording."
 )
@@ -48,43 +48,6 @@ class Boom(Exception):
     pass
 
 
-class _Helper:
-    """A second, long-lived thread used to detect a queuing lock still held by the main thread."""
-
-    def __init__(self):
-        import queue
-        import threading
-
-        self.q = queue.SimpleQueue()
-        self.t = threading.Thread(target=self._loop, daemon=True, name="c41-probe")
-        self.t.start()
-
-    def _loop(self):
-        while True:
-            fn, ev = self.q.get()
-            try:
-                fn()
-            finally:
-                ev.set()
-
-    def ask(self, fn):
-        import threading
-
-        ev = threading.Event()
-        self.q.put((fn, ev))
-        return ev
-
-
-def _helper():
-    import os
-
-    h = _ENV.get("helper")
-    if h is None or _ENV.get("helper_pid") != os.getpid() or not h.t.is_alive():
-        h = _ENV["helper"] = _Helper()
-        _ENV["helper_pid"] = os.getpid()
-    return h
-
-
 def preimport():
     setup()
 
@@ -104,17 +67,13 @@ def setup():
     _ENV.update(qp=qp, AQ=AnnotatedQueue, QM=QueuingManager, Tape=QuantumTape, Operator=Operator,
                 MP=MeasurementProcess, ready=True)
     # warm every lazily imported code path once, in the parent, before workers are forked
-    # (no helper thread here: the runner refuses to fork a multi-threaded parent)
     from simkit.core import Streams, derive_seed
 
-    _ENV["no_thread"] = True
     try:
         for i in range(300):
             run_case(gen_case(Streams(derive_seed("warm", i)), "quick"))
     except Exception:  # noqa: BLE001 - warm-up only; the search itself reports what is wrong
         pass
-    finally:
-        _ENV["no_thread"] = False
 
 
 # ------------------------------------------------------------------------------------------------
@@ -251,8 +210,6 @@ class _Frame:
 
 
 def run_case(case):
-    import threading
-
     from simkit.core import Trace
 
     qp, AQ, QM, Tape = _ENV["qp"], _ENV["AQ"], _ENV["QM"], _ENV["Tape"]
@@ -593,22 +550,20 @@ def run_case(case):
             probe_res[tag] = repr(e)[:100]
 
     probe("main")
-    # second thread (one long-lived helper per worker process: thread creation is slow here)
-    if _ENV.get("no_thread"):
-        done = threading.Event()
-        done.set()
-    else:
-        done = _helper().ask(lambda: probe("thread"))
-    if not done.wait(timeout=2):
-        viol("queuing_lock_leaked", {"where": "probe_thread"}, {"note": "a second thread cannot enter AnnotatedQueue/QuantumTape"})
-        # release the leaked lock(s) so that this worker can continue
-        for lk in (AQ._lock, Tape._lock):
-            try:
-                while True:
-                    lk.release()
-            except RuntimeError:
-                pass
-        done.wait(timeout=5)
+    # A queuing lock still held by this thread after the program would block every other thread that
+    # wants to record.  Detected without a second thread and without any wall-clock timeout (an earlier
+    # version waited 2 s for a helper thread and raised a false alarm on a heavily loaded machine):
+    # releasing an RLock this thread does not own raises RuntimeError, releasing one it owns succeeds.
+    for lock_name, lk in (("AnnotatedQueue", AQ._lock), ("QuantumTape", Tape._lock)):
+        leaked = 0
+        try:
+            while True:
+                lk.release()
+                leaked += 1
+        except RuntimeError:
+            pass
+        if leaked:
+            viol("queuing_lock_leaked", {"where": lock_name}, {"levels_still_held": leaked})
     for tag, ok in probe_res.items():
         if ok is not True:
             viol("probe_program_wrong", {"where": tag}, {"result": ok})
